@@ -690,6 +690,12 @@ class BinaryQuadraticModel(QuadraticViewsMixin):
         except NotImplementedError:
             pass
 
+        # a label may appear in several terms: sum its biases first
+        merged = {}
+        for v, bias in terms:
+            merged[v] = merged.get(v, 0) + bias
+        terms = list(merged.items())
+
         for pair in itertools.combinations_with_replacement(terms, 2):
             (u, ubias), (v, vbias) = pair
 
